@@ -1,5 +1,173 @@
-From Coq Require Import List ZArith. Import ListNotations.
-From QV Require Import Model.Expand.
-Example c08_smoke : expand_order [2;2;2;2;2] [2;2] [2;2] (TsList [TInt 3; TInt 0]) = Ok [1;2;3;0;4].
+(* C08 -- Operator embedding places an operator on exactly the requested subsystems.
+
+   Model: Model/Expand.v (expand_operator with _targets_to_list and _check_oper_dims, Python indexing
+   semantics).  [expand_elem dims orow ocol targets x y] is the entry <x|E|y> of the embedded operator E,
+   given as WHICH entry of the operator it copies (Some (r,c)), or zero (None), or Error (call raises).
+   x, y, r, c are digit lists of product basis states.  No bound on the number of subsystems, on the
+   dimensions, or on the number of targets anywhere below. *)
+From Coq Require Import List ZArith Bool Permutation.
+Import ListNotations.
+From QV Require Import Model.Expand Proofs.Expand Proofs.ExpandReject.
+
+(* ---- the positive clause ------------------------------------------------------------------ *)
+
+(* For every dimension vector, every injective in-range target list whose dimensions match the operator
+   (valid_targets) and all basis labels x, y: the entry is the operator's entry on the target digits
+   (in the listed order) if all other digits agree, and zero otherwise. *)
+Theorem expand_element : forall dims orow ocol ts x y,
+  valid_targets dims orow ocol ts -> length x = length dims -> length y = length dims ->
+  expand_elem dims orow ocol (TsList (tz ts)) x y =
+    Ok (if rest_agree (length dims) ts x y then Some (digits_at x ts, digits_at y ts) else None).
+Proof. exact expand_element_lemma. Qed.
+Print Assumptions expand_element.
+
+(* rest_agree is the Kronecker delta on all non-target digits *)
+Theorem rest_agree_is_delta : forall N ts x y,
+  rest_agree N ts x y = true <-> (forall q, q < N -> ~ In q ts -> nth q x 0 = nth q y 0).
+Proof. exact rest_agree_spec. Qed.
+Print Assumptions rest_agree_is_delta.
+
+(* the same for an arbitrary operator over an arbitrary scalar type *)
+Theorem expand_entry_any_operator :
+  forall (A : Type) (zero : A) (op : list nat -> list nat -> A) dims orow ocol ts x y,
+  valid_targets dims orow ocol ts -> length x = length dims -> length y = length dims ->
+  expand_entry zero op dims orow ocol (TsList (tz ts)) x y =
+    Ok (if rest_agree (length dims) ts x y then op (digits_at x ts) (digits_at y ts) else zero).
+Proof. exact expand_entry_lemma. Qed.
+Print Assumptions expand_entry_any_operator.
+
+(* the result lives on the requested system *)
+Theorem expand_dims_preserved : forall dims orow ocol ts,
+  valid_targets dims orow ocol ts -> expand_dims dims orow ocol (TsList (tz ts)) = Ok dims.
+Proof. exact expand_dims_lemma. Qed.
+Print Assumptions expand_dims_preserved.
+
+(* the computed order is a permutation that sends target i to tensor factor i *)
+Theorem expand_new_order_perm : forall dims orow ocol ts,
+  valid_targets dims orow ocol ts ->
+  exists order, expand_order dims orow ocol (TsList (tz ts)) = Ok order /\
+                Permutation order (seq 0 (length dims)) /\
+                (forall i, i < length ts -> nth (nth i ts 0) order 0 = i).
+Proof. exact expand_order_lemma. Qed.
+Print Assumptions expand_new_order_perm.
+
+(* targets=None means the first k subsystems; a scalar target means a one-element list *)
+Theorem expand_none_form : forall dims orow ocol x y,
+  expand_elem dims orow ocol TsNone x y = expand_elem dims orow ocol (TsList (tz (seq 0 (length orow)))) x y.
+Proof. exact expand_elem_none. Qed.
+Print Assumptions expand_none_form.
+
+Theorem expand_scalar_form : forall dims orow ocol t x y,
+  expand_elem dims orow ocol (TsScalar (TInt (Z.of_nat t))) x y = expand_elem dims orow ocol (TsList (tz [t])) x y.
+Proof. exact expand_elem_scalar. Qed.
+Print Assumptions expand_scalar_form.
+
+(* qubit bridge: all dimensions 2, labels as bit lists, M any matrix indexed by bit lists *)
+Theorem expand_qubits :
+  forall (A : Type) (zero : A) (M : list bool -> list bool -> A) N ts x y,
+  NoDup ts -> Forall (fun t => t < N) ts -> length x = N -> length y = N ->
+  expand_entry zero (fun r c => M (map n2b r) (map n2b c))
+               (repeat 2 N) (repeat 2 (length ts)) (repeat 2 (length ts)) (TsList (tz ts))
+               (map b2n x) (map b2n y) =
+    Ok (if rest_agree_bits N ts x y then M (bits_at x ts) (bits_at y ts) else zero).
+Proof. exact expand_qubits_lemma. Qed.
+Print Assumptions expand_qubits.
+
+(* ---- the rejection clause ------------------------------------------------------------------ *)
+
+(* a call is accepted exactly when the targets are integers, injective, in range [0, N), as many as
+   the operator has subsystems, with matching dimensions, and the operator is square *)
+Theorem expand_ok_iff : forall dims orow ocol l,
+  is_ok (expand_plan dims orow ocol (TsList l)) = true <->
+  exists ts, l = tz ts /\ valid_targets dims orow ocol ts.
+Proof. exact expand_ok_iff_lemma. Qed.
+Print Assumptions expand_ok_iff.
+
+Theorem expand_rejects_wrong_count : forall dims orow ocol l,
+  length l <> length orow -> is_ok (expand_plan dims orow ocol (TsList l)) = false.
+Proof. exact rejects_wrong_count. Qed.
+Print Assumptions expand_rejects_wrong_count.
+
+(* t >= N and negative t alike *)
+Theorem expand_rejects_out_of_range : forall dims orow ocol l t,
+  In (TInt t) l -> (t < 0 \/ Z.of_nat (length dims) <= t)%Z ->
+  is_ok (expand_plan dims orow ocol (TsList l)) = false.
+Proof. exact rejects_out_of_range. Qed.
+Print Assumptions expand_rejects_out_of_range.
+
+Theorem expand_rejects_dims_mismatch : forall dims orow ocol ts,
+  orow <> digits_at dims ts -> is_ok (expand_plan dims orow ocol (TsList (tz ts))) = false.
+Proof. exact rejects_dims_mismatch. Qed.
+Print Assumptions expand_rejects_dims_mismatch.
+
+Theorem expand_rejects_duplicates : forall dims orow ocol ts,
+  ~ NoDup ts -> is_ok (expand_plan dims orow ocol (TsList (tz ts))) = false.
+Proof. exact rejects_duplicates. Qed.
+Print Assumptions expand_rejects_duplicates.
+
+Theorem expand_rejects_non_integer : forall dims orow ocol l,
+  In TOther l -> is_ok (expand_plan dims orow ocol (TsList l)) = false.
+Proof. exact rejects_non_integer. Qed.
+Print Assumptions expand_rejects_non_integer.
+
+Theorem expand_rejects_non_square : forall dims orow ocol l,
+  ocol <> orow -> is_ok (expand_plan dims orow ocol (TsList l)) = false.
+Proof. exact rejects_non_square. Qed.
+Print Assumptions expand_rejects_non_square.
+
+Theorem expand_rejected_no_entry : forall dims orow ocol ts x y,
+  is_ok (expand_plan dims orow ocol ts) = false -> is_ok (expand_elem dims orow ocol ts x y) = false.
+Proof. exact rejected_no_entry. Qed.
+Print Assumptions expand_rejected_no_entry.
+
+(* ---- non-vacuity: the hypotheses are inhabited by non-trivial inputs ------------------------- *)
+
+(* mixed dimensions, two targets in non-increasing order, three identity factors *)
+Example ex_valid_targets : valid_targets [2;3;2;2;4] [4;3] [4;3] [4;1].
+Proof.
+  split; [|split; [|split]]; try reflexivity.
+  - repeat constructor; cbn; intuition congruence.
+  - repeat constructor.
+Qed.
+
+Example ex_entry_nonzero :
+  expand_elem [2;3;2;2;4] [4;3] [4;3] (TsList (tz [4;1])) [1;2;0;1;3] [1;0;0;1;2] = Ok (Some ([3;2], [2;0])).
 Proof. vm_compute. reflexivity. Qed.
-Print Assumptions c08_smoke.
+
+Example ex_entry_zero :
+  expand_elem [2;3;2;2;4] [4;3] [4;3] (TsList (tz [4;1])) [1;2;0;1;3] [1;0;1;1;2] = Ok None.
+Proof. vm_compute. reflexivity. Qed.
+
+Example ex_order_three_cycle :
+  expand_order [2;2;2;2;2] [2;2] [2;2] (TsList (tz [3;0])) = Ok [1;2;3;0;4].
+Proof. vm_compute. reflexivity. Qed.
+
+Example ex_qubit_hyps : NoDup [2;0] /\ Forall (fun t => t < 3) [2;0].
+Proof. split; repeat constructor; cbn; intuition congruence. Qed.
+
+Example ex_reject_count : is_ok (expand_plan [2;2;2] [2;2] [2;2] (TsList [TInt 1])) = false.
+Proof. vm_compute. reflexivity. Qed.
+
+Example ex_reject_too_big : is_ok (expand_plan [2;2;2] [2] [2] (TsList [TInt 3])) = false.
+Proof. vm_compute. reflexivity. Qed.
+
+(* a negative target passes the `t < N` test and the dims lookup; the rest_qubits loop raises *)
+Example ex_reject_negative : expand_plan [2;2;2] [2] [2] (TsList [TInt (-1)]) = Error IndexError.
+Proof. vm_compute. reflexivity. Qed.
+
+Example ex_reject_duplicate : expand_plan [2;2;2] [2;2] [2;2] (TsList [TInt 1; TInt 1]) = Error IndexError.
+Proof. vm_compute. reflexivity. Qed.
+
+(* more targets than subsystems: only Qobj.permute refuses *)
+Example ex_reject_duplicate_permute : expand_plan [2] [2;2] [2;2] (TsList [TInt 0; TInt 0]) = Error PermuteError.
+Proof. vm_compute. reflexivity. Qed.
+
+(* right multiset of dimensions, wrong order *)
+Example ex_reject_dims_order : expand_plan [2;3;2] [2;3] [2;3] (TsList [TInt 1; TInt 0]) = Error DimsMismatch.
+Proof. vm_compute. reflexivity. Qed.
+
+Example ex_reject_non_integer : expand_plan [2;2] [2] [2] (TsList [TOther]) = Error TypeError.
+Proof. vm_compute. reflexivity. Qed.
+
+Example ex_reject_non_square : expand_plan [2;3] [2] [3] (TsList [TInt 0]) = Error NotSquare.
+Proof. vm_compute. reflexivity. Qed.
